@@ -1,6 +1,7 @@
 package gen
 
 import (
+	"deps.dev/util/semver"
 	"fmt"
 	"regexp"
 	"strings"
@@ -405,8 +406,67 @@ func MavenUniverse(o MavenUOpts) *rapid.Generator[Universe] {
 			u.Pkgs = append(u.Pkgs, p)
 		}
 		aimExclusions(t, &u)
+		if !o.NoRanges && rapid.IntRange(0, 4).Draw(t, "typedconflict") == 0 {
+			typedConflict(t, &u)
+		}
 		return u
 	})
+}
+
+// typedConflict plants the conflict "soft version first, a range that excludes
+// it later" on an artifact key with a type or classifier (war/ear/rar are not
+// traversed, test-jar and classifiers share the version node with the plain
+// jar): one declaration names version V, another one, elsewhere, the range [W].
+func typedConflict(t *rapid.T, u *Universe) {
+	var multi []int
+	for i, p := range u.Pkgs {
+		if len(p.Versions) >= 2 {
+			multi = append(multi, i)
+		}
+	}
+	if len(multi) == 0 || len(u.Pkgs) < 3 {
+		return
+	}
+	ti := multi[rapid.IntRange(0, len(multi)-1).Draw(t, "tctarget")]
+	target := u.Pkgs[ti]
+	vi := rapid.IntRange(0, len(target.Versions)-1).Draw(t, "tcv")
+	wi := (vi + 1 + rapid.IntRange(0, len(target.Versions)-2).Draw(t, "tcw")) % len(target.Versions)
+	typ := rapid.SampledFrom([]string{"MavenArtifactType war", "MavenArtifactType ear", "MavenArtifactType rar", "MavenArtifactType test-jar", "MavenClassifier tests"}).Draw(t, "tctype")
+	var others []int
+	for i := range u.Pkgs {
+		if i != ti {
+			others = append(others, i)
+		}
+	}
+	ai := others[rapid.IntRange(0, len(others)-1).Draw(t, "tca")]
+	bi := others[rapid.IntRange(0, len(others)-1).Draw(t, "tcb")]
+	add := func(pi int, req string) {
+		p := &u.Pkgs[pi]
+		v := &p.Versions[rapid.IntRange(0, len(p.Versions)-1).Draw(t, "tcslot")]
+		for _, r := range v.Reqs {
+			if r.Name == target.Name && r.Type == typ {
+				return
+			}
+		}
+		v.Reqs = append(v.Reqs, UReq{Name: target.Name, Req: req, Type: typ})
+	}
+	add(ai, target.Versions[vi].Version)
+	add(bi, "["+target.Versions[wi].Version+"]")
+	// and something that requires both carriers
+	ci := others[rapid.IntRange(0, len(others)-1).Draw(t, "tcc")]
+	c := &u.Pkgs[ci].Versions[0]
+	for _, pi := range []int{ai, bi} {
+		if pi == ci {
+			continue
+		}
+		have := false
+		for _, r := range c.Reqs {
+			have = have || r.Name == u.Pkgs[pi].Name
+		}
+		if !have {
+			c.Reqs = append(c.Reqs, UReq{Name: u.Pkgs[pi].Name, Req: u.Pkgs[pi].Versions[0].Version})
+		}
+	}
 }
 
 // aimExclusions retargets most exclusions at a package that is actually
@@ -499,7 +559,34 @@ func injectPyPIScenario(t *rapid.T, u *Universe) {
 		v.Reqs = append(v.Reqs, UReq{Name: target, Req: spec, Type: typ})
 	}
 	hi := func(p *UPkg) *UVer { return &p.Versions[len(p.Versions)-1] }
-	switch rapid.IntRange(0, 4).Draw(t, "scenariokind") {
+	switch rapid.IntRange(0, 5).Draw(t, "scenariokind") {
+	case 5: // a candidate that is tried and dropped names a prerelease of Z
+		if len(P.Versions) >= 2 {
+			top := 0
+			for i := range P.Versions {
+				if semver.PyPI.Compare(P.Versions[i].Version, P.Versions[top].Version) > 0 {
+					top = i
+				}
+			}
+			hasPre := false
+			for _, v := range Z.Versions {
+				hasPre = hasPre || v.Version == "9.0b1"
+			}
+			if !hasPre {
+				Z.Versions = append(Z.Versions, UVer{Version: "9.0b1"})
+			}
+			for i := range root.Versions {
+				set(&root.Versions[i], P.Name, "", "")
+				set(&root.Versions[i], R.Name, "", "")
+				set(&root.Versions[i], Z.Name, "", "")
+			}
+			// the newest P cannot be pinned: one of its requirements has nowhere to go
+			set(&P.Versions[top], Z.Name, "<=9.0b1", "")
+			set(&P.Versions[top], Q.Name, "==99", "")
+			for i := range R.Versions {
+				set(&R.Versions[i], Z.Name, ">=0.1", "")
+			}
+		}
 	case 4: // a downgrade that leaves a stale parent in front of a two-cycle
 		if len(P.Versions) >= 2 {
 			for i := range root.Versions {
